@@ -24,6 +24,7 @@ FUNCTIONS = ["ebpfcat/bpf.py:_lookup_elem, lookup_elem, lookup_and_delete_elem, 
              "ebpfcat/arraymap.py:PerCPUReader.read, PerCPUArrayMap.create_map",
              "ebpfcat/ebpf.py:Structure.__init__, Member"]
 FMTS = "bBhHiIqQ"
+HASHFMTS = list(FMTS) + ["<H", ">I", "!i", "<q", ">B", "!h"]
 ONLINE = 4
 POSSIBLE = [4, 5, 8, 64]
 
@@ -37,7 +38,7 @@ def gen_spec(seed):
                     key=lambda f: -("bBhHiIqQ".index(f) // 2))
         return fm
     return dict(seed=seed,
-                hashvars=[(rng.choice(FMTS), rng.randrange(-5, 100))
+                hashvars=[(rng.choice(HASHFMTS), rng.randrange(-5, 100))
                           for _ in range(rng.randint(1, 3))],
                 percpu=[rng.choice(FMTS) for _ in range(rng.randint(0, 2))],
                 key=struct_fmts(), value=struct_fmts(),
@@ -52,7 +53,7 @@ def build(spec):
     hmap = hm.HashMap()
     ns["hmap"] = hmap
     for i, (f, d) in enumerate(spec["hashvars"]):
-        ns[f"h{i}"] = hmap.globalVar(f, default=d if f.islower() else abs(d))
+        ns[f"h{i}"] = hmap.globalVar(f, default=d if f[-1].islower() else abs(d))
     if spec["percpu"]:
         pc = am.PerCPUArrayMap()
         ns["pc"] = pc
@@ -147,7 +148,8 @@ def main(tier, replay_file=None):
     ck = common.Check(
         "C10", tier, "model_checking", FUNCTIONS,
         bounds=dict(programs=f"{n} seeded programs (seed base {common.seed()}): "
-                             "1-3 hash-map variables of formats bBhHiIqQ with "
+                             "1-3 hash-map variables of formats bBhHiIqQ (some "
+                             "with a byte-order prefix) with "
                              "defaults, 0-2 per-CPU variables, a Dict (HASH or "
                              "LRU) with packed Structure key and value of 1-3 "
                              "members",
